@@ -313,6 +313,14 @@ class _CF(Folder):
         super().__init__(env)
         self.repo, self.mod = repo, mod
 
+    def f_Name(self, n):
+        try:
+            return super().f_Name(n)
+        except NotConstant:
+            if n.id in self.mod.assigns:
+                return _CF({}, self.repo, self.mod).fold(self.mod.assigns[n.id])
+            raise
+
     def f_Call(self, n):
         if isinstance(n.func, ast.Name) and not n.args and not n.keywords:
             tgt = self.repo.resolve_dotted(self.mod, n.func.id)
@@ -394,6 +402,59 @@ class _Subst(ast.NodeTransformer):
 # ------------------------------------------------------------------------------ T3
 
 
+def _disc_atoms(b, k=None):
+    """atoms of the form `$fields[k] == Const('X')` / `$fields[k] in (...)` inside a boolean fact"""
+    import re as _re
+
+    out = []
+    if b.kind == "atom":
+        m = _re.match(r"\$?fields\[(\d+)\] (==|in) ", b.a)
+        if m and "Const(" in b.a and (k is None or int(m.group(1)) == k):
+            out.append((int(m.group(1)), b))
+    elif b.kind == "not":
+        out.extend(_disc_atoms(b.a, k))
+    elif b.kind in ("and", "or"):
+        for x in b.a:
+            out.extend(_disc_atoms(x, k))
+    return out
+
+
+def _disc_column(pc):
+    cols = [i for f in pc for i, _ in _disc_atoms(f) if i != 0]
+    return max(set(cols), key=cols.count) if cols else None
+
+
+def _disc_text(pc, k):
+    return "; ".join(repr(f) for f in pc if k is not None and _disc_atoms(f, k)) or None
+
+
+def _pc_under(pc, k, value):
+    """three-valued truth of the conjunction of the facts that mention fields[k], with fields[k] == value"""
+    def ev(b):
+        if b.kind == "const":
+            return bool(b.a)
+        if b.kind == "atom":
+            if _disc_atoms(b, k):
+                return repr(Const(value)) in b.a.split(" ", 1)[1]
+            return None
+        if b.kind == "not":
+            r = ev(b.a)
+            return None if r is None else not r
+        if b.kind == "and":
+            rs = [ev(x) for x in b.a]
+            return False if any(r is False for r in rs) else None if any(r is None for r in rs) else True
+        if b.kind == "or":
+            rs = [ev(x) for x in b.a]
+            return True if any(r is True for r in rs) else None if any(r is None for r in rs) else False
+        return None
+
+    rel = [f for f in pc if _disc_atoms(f, k)]
+    if not rel:
+        return None
+    rs = [ev(f) for f in rel]
+    return False if any(r is False for r in rs) else None if any(r is None for r in rs) else True
+
+
 def _t3_agp(L, fa, pa, w, r):
     frag_rows = [x for x in r if x["kind"] == "Fragment"]
     gap_rows = [x for x in r if x["kind"] == "Gap"]
@@ -437,21 +498,19 @@ def _t3_agp(L, fa, pa, w, r):
             k = _field_index(src)
             ok = k is not None and k < len(wc) and wc[k] == want
             L.check(ok, "T3", f"AGP:gap:{want[1]}", f"column {k + 1 if k is not None else '?'} carries row.{want[1]}", f"reader takes Gap.{want[1]} from {src}, writer column there is {wc[k] if k is not None and k < len(wc) else None}", pa.loc(gap_rows[0]["node"]))
-        # discriminator
-        disc = [f for f in gap_rows[0]["pc"] if f.kind == "atom" and " in " in f.a and "fields[" in f.a]
+        # discriminator: the reader's gap-row path condition, evaluated for the writer's constant in that column
+        k = _disc_column(gap_rows[0]["pc"])
         okd = False
-        if disc:
-            k = _field_index(disc[0].a.split(" in ")[0].strip("$"))
-            okd = k is not None and k < len(wc) and wc[k][0] == "const" and repr(wc[k][1]) in disc[0].a
-        L.check(okd, "T3", "AGP:gap:discriminator", "writer's component type is in the reader's gap set", f"reader recognises gap rows by {disc[0].a if disc else None}; writer column is {wc[k] if disc and k is not None and k < len(wc) else None}", pa.loc(gap_rows[0]["node"]))
+        if k is not None and k < len(wc) and wc[k][0] == "const":
+            okd = all(_pc_under(g["pc"], k, wc[k][1]) is True for g in gap_rows[:1])
+        L.check(okd, "T3", "AGP:gap:discriminator", "writer's component type is in the reader's gap set", f"reader recognises gap rows by {_disc_text(gap_rows[0]['pc'], k)}; writer column is {wc[k] if k is not None and k < len(wc) else None}", pa.loc(gap_rows[0]["node"]))
     # W discriminator must not be in the gap set
     for (cols, _, _, node) in wf.values():
         wc = [_wcol(c) for c in cols]
-        disc = [f for f in gap_rows[0]["pc"] if f.kind == "atom" and " in " in f.a and "fields[" in f.a]
-        if disc:
-            k = _field_index(disc[0].a.split(" in ")[0].strip("$"))
-            ok = k is not None and wc[k][0] == "const" and repr(wc[k][1]) not in disc[0].a
-            L.check(ok, "T3", "AGP:W:discriminator", "W rows are not read as gaps", f"writer marks sequence rows with {wc[k] if k is not None else None}, which the reader treats as a gap", fa.loc(node))
+        k = _disc_column(gap_rows[0]["pc"])
+        if k is not None:
+            ok = k < len(wc) and wc[k][0] == "const" and _pc_under(gap_rows[0]["pc"], k, wc[k][1]) is False
+            L.check(ok, "T3", "AGP:W:discriminator", "W rows are not read as gaps", f"writer marks sequence rows with {wc[k] if k < len(wc) else None}, which the reader treats as a gap", fa.loc(node))
 
 
 def _field_index(src):
@@ -563,7 +622,7 @@ def _t4(L, parser: Func, lp, agp):
         facts = [(norm(t), v) for e in p.events if e.kind == "cond" for t, v in cond_facts(e.node, e.val)]
         if p.status == "raise":
             continue
-        if p.status in ("continue",) or (p.status == "fall" and adds == 0):
+        if adds == 0 and p.status in ("continue", "fall"):
             n_skip += 1
             blank = any(("re.match('\\\\s*$'" in t or "not line.strip()" in t or "line.isspace()" in t) and v for t, v in facts)
             comment = any("startswith('#" in t and v for t, v in facts)
